@@ -137,6 +137,29 @@ def recon_tables():
     if fin_ident + fin_both != 1:
         raise ExtractError("record/mod.rs: attr_name_final not recognised")
 
+    # the reset discipline of `RecognizerDecoder` (Decoder impl)
+    asy = src("api/formats/swimos_recon/src/recon_parser/async_parser/mod.rs")
+    dec_body = one(r"fn decode\(&mut self, src: &mut BytesMut\) -> Result<Option<Self::Item>, Self::Error> \{\s*"
+                   r"let result = self\.decode_bytes\(src\);\s*if ([^{]*?) \{\s*self\.reset\(\);\s*\}\s*result\s*\}",
+                   asy, "RecognizerDecoder::decode reset condition", re.S).strip()
+    if dec_body == "!matches!(result, Ok(None))":
+        decode_resets_on_error = True
+    elif dec_body == "matches!(result, Ok(Some(_)))":
+        decode_resets_on_error = False
+    else:
+        raise ExtractError(f"RecognizerDecoder::decode: reset condition not recognised: {dec_body!r}")
+    eof = one(r"fn decode_eof\(&mut self, buf: &mut BytesMut\) -> Result<Option<Self::Item>, Self::Error> \{(.*?)\n    \}\n",
+              asy, "RecognizerDecoder::decode_eof", re.S)
+    if not re.search(r"\};\s*self\.reset\(\);\s*result\s*$", eof):
+        raise ExtractError("RecognizerDecoder::decode_eof: final reset not recognised")
+    if re.search(r"let content = read_utf8\(buf\.as_ref\(\)\)\?;", eof):
+        eof_bad_utf8_resets = False      # early return before the reset (finding C09-N5)
+    elif re.search(r"let content = match read_utf8\(buf\.as_ref\(\)\) \{\s*Ok\((\w+)\) => \1,\s*Err\((\w+)\) => \{\s*(?://[^\n]*\n\s*)*"
+                   r"self\.reset\(\);\s*return Err\(\2(?:\.into\(\))?\);\s*\}\s*\};", eof):
+        eof_bad_utf8_resets = True
+    else:
+        raise ExtractError("RecognizerDecoder::decode_eof: read_utf8 handling not recognised")
+
     def words_lean(ws):
         return "[" + ", ".join('"' + w + '".toList' for w in ws) + "]"
 
@@ -157,6 +180,10 @@ def recon_tables():
             f"def attrNamesRaw : Bool := {'true' if raw_names else 'false'}\n"
             "/-- `attr_name_final` (attribute at the very end of a document) accepts a quoted name. -/\n"
             f"def finalAttrNameQuoted : Bool := {'true' if fin_both else 'false'}\n"
+            "/-- `RecognizerDecoder::decode` resets parser and recogniser after an error as well as after a value. -/\n"
+            f"def decodeResetsOnError : Bool := {'true' if decode_resets_on_error else 'false'}\n"
+            "/-- `RecognizerDecoder::decode_eof` resets also when the buffer is not UTF-8 (`false`: it returns before the reset, finding C09-N5). -/\n"
+            f"def eofBadUtf8Resets : Bool := {'true' if eof_bad_utf8_resets else 'false'}\n"
             "end SwimVerif.Generated.Recon\n")
 
 
